@@ -193,6 +193,9 @@ class Signed(BitVector):
         if isinstance(rhs, (int, Integer)):
             rhs = Integer.decay(rhs)
             target_width = self.width
+        elif isinstance(rhs, Signed):
+            # negate at the width of the result, not at the width of rhs
+            rhs = rhs.resize(max(self.width, rhs.width))
 
         rhs = -rhs
         return self.add(rhs, target_width)
